@@ -64,6 +64,62 @@ def coq_case(case, obs):
     return (f"(check_oscar (table {tf}) (table {ti}) (pvtable {pv}) {G.coq_file(lines)} SelAll {G.coq_observed(obs)})")
 
 
+def doc_from_text(text):
+    """independent parse of a generated file into the doc structure used by the oracles"""
+    lines = text.split("\n")
+    if lines and lines[-1] == "":
+        lines = lines[:-1]
+    if lines[0].startswith("#!OSCAR2013 "):
+        evs = []
+        for l in lines[3:]:
+            t = l.split(" ")
+            if l.startswith("# event") and " out " in l:
+                evs.append({"rows": [], "label": int(t[2]), "declared": int(t[4])})
+            elif l.startswith("# event"):
+                nz = [x for x in t if x]
+                evs[-1]["b"] = nz[-3]; evs[-1]["yn"] = nz[-1]; evs[-1]["foot"] = l
+            else:
+                evs[-1]["rows"].append(t)
+        return "oscar", {"fmt": "Oscar2013", "head": lines[:3], "cols": None, "events": evs}
+    evs = []
+    for l in lines[1:-1]:
+        t = l.replace("\t", " ").split(" ")
+        if l.startswith("#"):
+            evs.append({"rows": [], "label": int(t[2]), "declared": int(t[8]), "weight": t[4], "ep": t[6]})
+        else:
+            evs[-1]["rows"].append(t)
+    tr = lines[-1].split()
+    return "jet", {"ptype": "hadron", "sep": " ", "events": evs, "sigma": tr[2], "sigerr": tr[4],
+                   "final_newline": text.endswith("\n")}
+
+
+def generator_cases(ctx):
+    """files written by the eight GenerateFlow.generate_dummy_* writers, read back"""
+    from sparkx.flow.GenerateFlow import GenerateFlow
+    import warnings
+    out = []
+    specs = [("generate_dummy_JETSCAPE_file", {}), ("generate_dummy_JETSCAPE_file_realistic_pT_shape", {}),
+             ("generate_dummy_JETSCAPE_file_multi_particle_correlations", {"k_particle_correlation": 2, "correlation_fraction": 0.5}),
+             ("generate_dummy_JETSCAPE_file_realistic_pT_shape_multi_particle_correlations", {"k_particle_correlation": 2, "correlation_fraction": 0.5}),
+             ("generate_dummy_OSCAR_file", {}), ("generate_dummy_OSCAR_file_realistic_pT_shape", {}),
+             ("generate_dummy_OSCAR_file_multi_particle_correlations", {"k_particle_correlation": 2, "correlation_fraction": 0.5}),
+             ("generate_dummy_OSCAR_file_realistic_pT_shape_multi_particle_correlations", {"k_particle_correlation": 2, "correlation_fraction": 0.5})]
+    for name, kw in specs:
+        nev = ctx.rng.randint(1, 3)
+        mult = ctx.rng.choice([2, 4, 6])
+        ext = ".dat" if "JETSCAPE" in name else ".oscar"
+        path = os.path.join(ctx.work, "gen_" + name + ext)
+        with warnings.catch_warnings():
+            warnings.simplefilter("ignore")
+            g = GenerateFlow(0.1, 0.05)
+            getattr(g, name)(path, nev, mult, ctx.rng.randint(1, 10**6), **kw)
+        text = open(path).read()
+        os.remove(path)
+        kind, doc = doc_from_text(text)
+        out.append({"kind": kind, "doc": doc, "text": text, "writer": name})
+    return out
+
+
 def gen_case(rng):
     if rng.random() < 0.4:
         d = J.gen_doc(rng)
@@ -75,7 +131,9 @@ def gen_case(rng):
 def correspondence(ctx, model_ok=True):
     n = 200 if ctx.quick else 3000
     cases = []
-    for i in range(n):
+    cases += generator_cases(ctx)
+    ngen = len(cases)
+    for i in range(n - ngen):
         cases.append(gen_case(ctx.rng))
     obs = [run_case(ctx, c, i) for i, c in enumerate(cases)]
     out = {"evaluations": n, "distinct_nontrivial": len({c["text"] for c, o in zip(cases, obs) if "err" not in o}),
